@@ -11,7 +11,8 @@ from harness import crawl
 P = 'C20'
 AGENTS = [None, 'MyCrawler/1.0 (+http://example.invalid/bot)', 'Mozilla/5.0 (compatible; archivebot)']
 PREFIXES = ['/d1/', '/d1/d2/', '/other/', '/a.html', '/b.html', '/img/', '/UP/', '/index.html', '/x.html', '/y/', '/static/', '/d1/p',
-            '/a.html?', '/index.html?id=', '/b.html?id=1', '/d1/p1.html?', '/other/q.html?id=0', '/?']
+            '/a.html?', '/index.html?id=', '/b.html?id=1', '/d1/p1.html?', '/other/q.html?id=0', '/?',
+            '/caf\u00e9/', '/caf%C3%A9/', '/caf\u00e9/m']       # raw UTF-8 and percent-encoded spellings of one path
 
 
 def gen_robots(tape, r):
@@ -198,6 +199,9 @@ def run_c20(tape, r, tier, sandbox):
         if not refrobots.allowed(g, ua_sent, path):
             pos = _rule_pos(st['text'], path)
             sig = 'rule-beyond-4096-bytes' if pos is not None and pos >= 4096 else 'plain'
+            g_ascii = [(agents, [(a, p) for a, p in rules if all(ord(c) < 128 for c in p)]) for agents, rules in g]
+            if refrobots.allowed(g_ascii, ua_sent, path):
+                sig = 'rule-in-raw-utf8'        # the deciding rule is written in raw UTF-8
             r.violate(P, 'disallowed-url-requested', sig, '%s requested with User-Agent %r although robots.txt of %r disallows it (served via %s; rule at byte %r)'
                       % (e['url'], ua_sent[:40], o, st['mode'], pos))
     # (d)/(e) coverage with the reference crawl under robots + nofollow
